@@ -106,7 +106,7 @@ def gen_case(rng: random.Random, i: int) -> dict:
             cmds.append(cmd)
     n_final = 4 if with_stop else 1
     cmds += [["start"]] * n_final
-    return {"clock": clock, "strategy": "pause", "prog": prog, "cmds": cmds}
+    return S.maybe_fail_construct({"clock": clock, "strategy": "pause", "prog": prog, "cmds": cmds}, rng, i)
 
 
 def small_prog(u):
@@ -207,7 +207,7 @@ def at_end_cases():
 
 def oracle(case, obs, ctx, idx):
     facts = {"bounded_cut": False, "cut_at_event_time": False, "step": False, "stop_start": False, "executed": 0}
-    why = S.representable(obs)
+    why = S.representable(obs, case)
     if "error" in obs:
         return ("driver-error", obs["error"]), facts
     bad_clock = S.log_insane(obs)
@@ -239,7 +239,7 @@ def oracle(case, obs, ctx, idx):
             facts["stop_start"] = True
         elif ent[0] == "cmd":
             c, r, rs, ps, clk, npend = ent[1], ent[2], ent[3], ent[4], ent[5], ent[6]
-            if r not in ("ok", "refused"):
+            if r not in ("ok", "refused") and not (c[0] == "init" and S.construct_fails(case)):
                 return ("command-raises-unrelated-error", f"{c} -> {r}"), facts
             if c[0] in ("runupto", "runuptoincl") and r == "ok":
                 t = c[1]
